@@ -20,26 +20,9 @@ open Ply PlyLemmas
 
 variable {α : Type}
 
-/-- A concrete coding over `Nat` ("float32" keeps the value mod 2³², 8-bit mod 256, normalisation is `/ 255`, decimal
-printing / parsing of naturals).  Used only to instantiate hypotheses in `example`s (non-vacuity) and to make the
-counterexample theorems concrete.  NOTE: `Coding α` carries NO laws; every general theorem below holds for an arbitrary
+/-- A small well-formed mesh for the examples.  NOTE: `Coding α` carries NO laws; every general theorem below holds for an arbitrary
 coding (even `f32 := fun _ => 0`) and speaks about `quantBin` = decode∘encode of THAT coding.  Precision content enters
-only through `CodingLaws` (end of file). -/
-def toyCoding : Coding Nat where
-  f32 x := UInt32.ofNat x
-  unf32 b := b.toNat
-  f64 x := UInt64.ofNat x
-  unf64 b := b.toNat
-  u8 x := UInt8.ofNat x
-  i32 x := UInt32.ofNat x
-  ofInt i := i.toNat
-  div255 x := x / 255
-  mulInv255 x := x / 255
-  showF x := showNat x
-  showI x := showNat x
-  parseF s := parseDigits s 0
-  parseF64 s := parseDigits s 0
-
+only through `CodingLaws` (end of file).  The concrete `PlyLemmas.toyCoding` (over `Nat`) instantiates hypotheses in examples. -/
 def toyMesh : MeshVal Nat :=
   ⟨.triangle, [0, 1, 2], [⟨3, positionAttr, [[1, 2, 3], [4, 5, 6], [7, 8, 9]]⟩, ⟨2, texCoordAttr, [[1, 2], [3, 4], [5, 6]]⟩], none⟩
 
